@@ -15,6 +15,9 @@ fn profile() -> HistProfile {
     hp.rollback_16 = 2;
     hp.fail_module_16 = 2;
     hp.offline_16 = 3;
+    // some versions do not advance regularly in (number, thisUpdate): an update that must be refused
+    // combined with an incomplete fetch must still leave the stored version intact
+    hp.irregular_16 = 3;
     hp
 }
 
@@ -33,7 +36,7 @@ fn prop(sc: &Scenario, info: &mut CaseInfo) -> Verdict {
 }
 
 pub fn run(ctx: &Ctx, rep: &mut Report, replay: Option<&serde_json::Value>) {
-    rep.rule("E-rpki histories of 2-4 runs (online, unreachable modules, offline runs) where later versions carry manifest/CRL/file faults (bad signature, garbage, missing, expired EE, wrong CRL URI, CRL missing/unlisted/bad signature/hash mismatch/revoking the manifest, listed file missing, hash mismatch); oracle after every run: the stored point of each CA, read back with routinator's own reader, equals byte-for-byte the last version the model accepted from the fetch path (manifest, CRL, exactly the listed files, stored hashes verify), or is absent; payload equals the model (so the stored copy is usable, incl. offline runs); non-trivial = a faulty/refused update or transport failure after the first run; distinct by serialised scenario");
+    rep.rule("E-rpki histories of 2-4 runs (online, unreachable modules, offline runs; a fifth of the versions do not advance regularly in manifest number / thisUpdate) where later versions carry manifest/CRL/file faults (bad signature, garbage, missing, expired EE, wrong CRL URI, CRL missing/unlisted/bad signature/hash mismatch/revoking the manifest, listed file missing, hash mismatch); oracle after every run: the stored point of each CA, read back with routinator's own reader, equals byte-for-byte the last version the model accepted from the fetch path (manifest, CRL, exactly the listed files, stored hashes verify), or is absent; payload equals the model (so the stored copy is usable, incl. offline runs); non-trivial = a faulty/refused update or transport failure after the first run; distinct by serialised scenario");
     rep.assume("reference model Appendix A");
     ctx.shrink_iters.store(120, std::sync::atomic::Ordering::Relaxed);
     if let Some(v) = replay {
